@@ -33,7 +33,7 @@ CONSTANTS MaxList,     \* longest transaction / receipt list
           MaxEv,       \* most events per receipt in the layout part
           MaxRcpt,     \* most receipts per stored container in the layout part
           CodecStatuses, \* receipt statuses in the layout part (the status byte itself is covered by the mutation part)
-          CumLens,     \* lengths of Receipt.CumulativeFeeUsed ({0}: what the node produces - nothing ever sets the field)
+          CumLens,     \* lengths of Receipt.CumulativeFeeUsed (nothing in the node sets the field today; the format carries it)
           NameChars,   \* alphabet of ChainID.Magic / Consensus; 0 stands for the separator '/'
           MaxName      \* longest Magic / Consensus
 
@@ -219,9 +219,8 @@ DecEvs(d, p, n, raddr) ==
        IN IF ~e.ok THEN [ok |-> FALSE, evs |-> <<>>, next |-> p]
           ELSE LET rest == DecEvs(d, e.next, n - 1, raddr)
                IN [ok |-> rest.ok, evs |-> <<e.ev>> \o rest.evs, next |-> rest.next]
-\* Receipt.unmarshalBody / unmarshalBodyV2 + the event loop, at position p.  Position arithmetic as coded, including
-\* StrayAdvance: after the bloom filter the decoder advances once more by the length it read last (that of
-\* CumulativeFeeUsed) before it reads the event counter.
+\* Receipt.unmarshalBody / unmarshalBodyV2 + the event loop, at position p: the decoder reads the items in the order and
+\* with the widths the encoder wrote them.
 DecReceipt(d, p, fmt) ==
   LET addr == At(d, p)
       st   == At(d, p + 1)
@@ -241,8 +240,7 @@ DecReceipt(d, p, fmt) ==
       bf   == At(d, p4)
       blm  == IF bf = 1 THEN Sub(d, p4 + 1, 1) ELSE <<>>
       p5   == p4 + 1 + (IF bf = 1 THEN 1 ELSE 0)
-      StrayAdvance == l3
-      p6   == p5 + StrayAdvance
+      p6   == p5
       evc  == At(d, p6)
       hdr  == InR(d, p, 3) /\ InR(d, p + 3, l1) /\ InR(d, p1, 2) /\ InR(d, p1 + 2, l2) /\ InR(d, p2, 1) /\ InR(d, p2 + 1, l3)
               /\ InR(d, p3, p4 - p3 + 1) /\ InR(d, p4 + 1, p5 - p4 - 1) /\ InR(d, p6, 1)
@@ -267,12 +265,14 @@ RoundTrip(rs, fmt, bloom) == DecContainer(EncContainer(rs, fmt, bloom), fmt)
 RoundTripOk(rs, fmt, bloom) == RoundTrip(rs, fmt, bloom) = [ok |-> TRUE, rs |-> rs, bloom |-> bloom]
 
 \* ---- chain ids: ChainID.Bytes = version (4 bytes: one cell) | public | mainnet | Magic "/" Consensus; Read splits the
-\* rest at the separator and wants exactly two parts
+\* rest at the separator and wants exactly two parts.  Bytes refuses an id whose Magic or Consensus contains the
+\* separator (Genesis.Validate then refuses the genesis): such an id is never written anywhere.
 Names == UNION {[1..n -> NameChars] : n \in 0..MaxName}
 CidVersions == {0, 2, 5}
 ChainIds == [ver : CidVersions, pub : BOOLEAN, main : BOOLEAN, magic : Names, cons : Names]
-EncCid(c) == <<c.ver, B2C(c.pub), B2C(c.main)>> \o c.magic \o <<0>> \o c.cons
 SepPositions(t) == {i \in DOMAIN t : t[i] = 0}
+Encodable(c) == SepPositions(c.magic) = {} /\ SepPositions(c.cons) = {}
+EncCid(c) == <<c.ver, B2C(c.pub), B2C(c.main)>> \o c.magic \o <<0>> \o c.cons          \* defined for Encodable(c) only
 DecCid(d) ==
   LET t  == Sub(d, 4, Len(d) - 3)
       sp == SepPositions(t)
@@ -281,7 +281,8 @@ DecCid(d) ==
           IN [ok |-> TRUE, c |-> [ver |-> d[1], pub |-> d[2] = 1, main |-> d[3] = 1,
                                   magic |-> SubSeq(t, 1, s - 1), cons |-> SubSeq(t, s + 1, Len(t))]]
 CidRoundTripOk(c) == DecCid(EncCid(c)) = [ok |-> TRUE, c |-> c]
-CidTab == [c \in ChainIds |-> EncCid(c)]
+EncodableIds == {c \in ChainIds : Encodable(c)}
+CidTab == [c \in EncodableIds |-> EncCid(c)]
 \* types.MakeChainId: the version prefix replaced, everything else kept
 MakeChainId(d, v) == [d EXCEPT ![1] = v]
 EqualWithoutVersion(a, b) == Len(a) >= 1 /\ Len(b) >= 1 /\ SubSeq(a, 2, Len(a)) = SubSeq(b, 2, Len(b))
@@ -334,7 +335,8 @@ Outcome(s) ==
           stored    |-> s.kind = "receipt" /\ s.field \in StoredFields(s.shape)]
     [] s.part = "list"  -> [root |-> ToString(RootTab[s.bloom][s.list])]
     [] s.part = "codec" -> [ok |-> RoundTripOk(s.rs, s.fmt, s.bloom)]
-    [] s.part = "cid"   -> [ok |-> CidRoundTripOk(s.c), bytes |-> EncCid(s.c)]
+    [] s.part = "cid"   -> [stored |-> Encodable(s.c), ok |-> Encodable(s.c) => CidRoundTripOk(s.c),
+                            bytes |-> IF Encodable(s.c) THEN EncCid(s.c) ELSE <<>>]
     [] OTHER -> [none |-> TRUE]
 
 \* ======================================================================== 5. properties
@@ -377,10 +379,10 @@ ListBinding ==
 
 \* (c) what is read back is what was written
 ReceiptsRoundTrip == cur.part = "codec" => RoundTripOk(cur.rs, cur.fmt, cur.bloom)
-ChainIdRoundTrip  == cur.part = "cid" => CidRoundTripOk(cur.c)
-ChainIdBinding    == cur.part = "cid" => \A c2 \in ChainIds : CidTab[c2] = CidTab[cur.c] => c2 = cur.c
+ChainIdRoundTrip  == (cur.part = "cid" /\ Encodable(cur.c)) => CidRoundTripOk(cur.c)
+ChainIdBinding    == (cur.part = "cid" /\ Encodable(cur.c)) => \A c2 \in EncodableIds : CidTab[c2] = CidTab[cur.c] => c2 = cur.c
 MakeChainIdKeepsRest ==
-  cur.part = "cid" => \A v \in CidVersions :
+  (cur.part = "cid" /\ Encodable(cur.c)) => \A v \in CidVersions :
       /\ EqualWithoutVersion(MakeChainId(EncCid(cur.c), v), EncCid(cur.c))
-      /\ CidRoundTripOk(cur.c) => DecCid(MakeChainId(EncCid(cur.c), v)) = [ok |-> TRUE, c |-> [cur.c EXCEPT !.ver = v]]
+      /\ DecCid(MakeChainId(EncCid(cur.c), v)) = [ok |-> TRUE, c |-> [cur.c EXCEPT !.ver = v]]
 =============================================================================
